@@ -181,10 +181,10 @@ pub fn run(tier: Tier) -> i32 {
     run.hang_is_violation = true;
     let p = Total;
     run.replays("total-genuine", &p);
-    run.generated("total-genuine", &p, tier.pick(120_000, 5_000_000));
+    run.generated("total-genuine", &p, tier.pick(250_000, 5_000_000));
     let e = EnumeratedFaults;
     run.replays("enumerated-faults", &e);
-    run.generated("enumerated-faults", &e, tier.pick(15_000, 600_000));
+    run.generated("enumerated-faults", &e, tier.pick(30_000, 600_000));
     run.finish(
         RULE,
         &[
